@@ -31,11 +31,12 @@ Fixpoint script_loop (forks funcs : list N) (tasks : list task) (l : list (nat *
       match r_type r with
       | LOST => script_loop forks funcs tasks tl g1        (* "Do nothing as of now" *)
       | ENTRY =>
-          (* fstack_entry (fork fix-up), depth = display depth, fstack_update(ENTRY), then the filter *)
+          (* fstack_entry (fix-ups for fork / exec / setjmp / longjmp symbols); depth = the display depth
+             BEFORE fstack_update(ENTRY) moves it (to 0 for exec, to the setjmp depth for longjmp); then the filter *)
           let depth := if pend then t_sc ts1 - 1 else t_dd ts1 in
-          let ts2 := if existsb (N.eqb (r_addr r)) forks then set_fork ts1 (depth + 1) else ts1 in
+          let '(ts2, sj) := fixup_entry (mkcfg false forks) r depth ts1 (g_sjd g1, g_sjc g1) in
           (if match_funcs funcs (r_addr r) then [CEntry i depth (r_time r) (r_addr r) (r_addr r)] else [])
-            ++ script_loop forks funcs tasks tl (tset g1 i (set_dd ts2 (depth + 1)))
+            ++ script_loop forks funcs tasks tl (tset (set_sj g1 sj) i (update_entry r depth ts2 sj))
       | EXIT =>
           let f := fget (t_stack ts1) (t_sc ts1) in
           let depth := if pend then t_sc ts1 else N.pred (t_dd ts1) in       (* fstack_update(EXIT) *)
